@@ -652,3 +652,139 @@ Qed.
 (* ------------------------------------------------------------------ *)
 (* best / worst point memory *)
 Local Close Scope Q_scope.
+
+Lemma fold_max_ge : forall l a, (a <= fold_left Z.max l a)%Z /\ forall x, In x l -> (x <= fold_left Z.max l a)%Z.
+Proof.
+  induction l as [|y l IH]; intros a; cbn [fold_left]; [split; [lia|intros x []]|].
+  destruct (IH (Z.max a y)) as [H1 H2]. split; [lia|]. intros x [<-|Hx]; [lia|auto].
+Qed.
+
+Lemma fold_max_in : forall l a, fold_left Z.max l a = a \/ In (fold_left Z.max l a) l.
+Proof.
+  induction l as [|y l IH]; intros a; cbn [fold_left]; [now left|].
+  destruct (IH (Z.max a y)) as [H|H]; [|right; now right].
+  destruct (Z.max_spec a y) as [[_ E]|[_ E]]; rewrite E in H |- *; [right; left; congruence|now left].
+Qed.
+
+(* best / worst points: coordinatewise extremes of everything seen *)
+Lemma col_fold_min_spec : forall (rest : list (list Z)) (r : list Z) c,
+  (forall row, In row rest -> length row = length r) -> (c < length r)%nat ->
+  let b := nth c (fold_left (fun acc row => map2 Z.min acc row) rest r) 0%Z in
+  (b <= nth c r 0)%Z /\ (forall row, In row rest -> (b <= nth c row 0)%Z) /\
+  (b = nth c r 0%Z \/ exists row, In row rest /\ b = nth c row 0%Z).
+Proof.
+  induction rest as [|x rest IH]; intros r c Hl Hc; cbn [fold_left].
+  - cbn zeta. split; [lia|]. split; [intros row []|now left].
+  - assert (Lx : length x = length r) by (apply Hl; now left).
+    assert (Lm : length (map2 Z.min r x) = length r) by (rewrite map2_length; lia).
+    assert (Nm : nth c (map2 Z.min r x) 0%Z = Z.min (nth c r 0%Z) (nth c x 0%Z)).
+    { clear - Lx Hc. revert x c Lx Hc. induction r as [|a r IHr]; intros [|b x] c Lx Hc; cbn in *; try lia.
+      destruct c; [reflexivity|]. apply IHr; lia. }
+    destruct (IH (map2 Z.min r x) c) as [H1 [H2 H3]].
+    { intros row Hrow. rewrite Lm. apply Hl. now right. }
+    { rewrite Lm. exact Hc. }
+    cbn zeta in *. rewrite Nm in H1, H3. split; [lia|]. split.
+    + intros row [<-|Hrow]; [lia|auto].
+    + destruct H3 as [H3|[row [Hr H3]]].
+      * destruct (Z.min_spec (nth c r 0%Z) (nth c x 0%Z)) as [[_ E]|[_ E]]; rewrite E in H3.
+        -- now left.
+        -- right. exists x. split; [now left|exact H3].
+      * right. exists row. split; [now right|exact H3].
+Qed.
+
+(* numpy.min(concatenate((fitnesses, best_point)), axis=0): every coordinate is a lower bound of
+   that coordinate over all rows (and the remembered point), and is attained *)
+Theorem update_best_spec (prev : option (list Z)) (fits : list (list Z)) (M c : nat) :
+  fits <> [] -> (forall row, In row fits -> length row = M) ->
+  (match prev with Some b => length b = M | None => True end) -> (c < M)%nat ->
+  let rows := fits ++ match prev with Some b => [b] | None => [] end in
+  let v := nth c (update_best prev fits) 0%Z in
+  (forall row, In row rows -> (v <= nth c row 0)%Z) /\ (exists row, In row rows /\ v = nth c row 0%Z).
+Proof.
+  intros Hne Hl Hp Hc rows v. unfold v, update_best, col_fold. fold rows.
+  assert (Hrows : forall row, In row rows -> length row = M).
+  { intros row Hr. unfold rows in Hr. apply in_app_or in Hr. destruct Hr as [Hr|Hr]; [auto|].
+    destruct prev as [b|]; [destruct Hr as [<-|[]]; exact Hp|destruct Hr]. }
+  destruct rows as [|r rest] eqn:E; [destruct fits; [congruence|discriminate]|].
+  assert (Lr : length r = M) by (apply Hrows; now left).
+  destruct (col_fold_min_spec rest r c) as [H1 [H2 H3]].
+  { intros row Hr. rewrite Lr. apply Hrows. now right. }
+  { rewrite Lr. exact Hc. }
+  cbn zeta in *. split.
+  - intros row [<-|Hr]; [exact H1|auto].
+  - destruct H3 as [H3|[row [Hr H3]]]; [exists r; split; [now left|exact H3]|exists row; split; [now right|exact H3]].
+Qed.
+
+(* find_extreme_points: the i-th extreme point is a row of the input that minimises the i-th ASF *)
+Lemma argmin_z_from_spec : forall (vals pre : list Z) besti,
+  (besti < length pre)%nat ->
+  (forall j, (j < length pre)%nat -> (nth besti pre 0 <= nth j pre 0)%Z) ->
+  let r := argmin_z_from vals (length pre) besti (nth besti pre 0%Z) in
+  (r < length (pre ++ vals))%nat /\
+  forall j, (j < length (pre ++ vals))%nat -> (nth r (pre ++ vals) 0 <= nth j (pre ++ vals) 0)%Z.
+Proof.
+  induction vals as [|v vals IH]; intros pre besti Hb Hpre; cbn [argmin_z_from].
+  - cbn zeta. rewrite app_nil_r. split; [exact Hb|exact Hpre].
+  - destruct (Z.ltb_spec v (nth besti pre 0%Z)) as [L|L].
+    + specialize (IH (pre ++ [v]) (length pre)). rewrite app_length in IH. cbn [length] in IH.
+      replace (length pre + 1)%nat with (S (length pre)) in IH by lia.
+      rewrite app_nth2, Nat.sub_diag in IH by lia. cbn [nth] in IH.
+      rewrite <- app_assoc in IH. cbn [app] in IH. apply IH; [lia|].
+      intros j Hj. destruct (Nat.eq_dec j (length pre)) as [->|Hne].
+      * rewrite app_nth2, Nat.sub_diag by lia. cbn. lia.
+      * rewrite app_nth1 by lia. specialize (Hpre j ltac:(lia)). lia.
+    + specialize (IH (pre ++ [v]) besti). rewrite app_length in IH. cbn [length] in IH.
+      replace (length pre + 1)%nat with (S (length pre)) in IH by lia.
+      rewrite app_nth1 in IH by lia. rewrite <- app_assoc in IH. cbn [app] in IH. apply IH; [lia|].
+      intros j Hj. destruct (Nat.eq_dec j (length pre)) as [->|Hne].
+      * rewrite app_nth2, Nat.sub_diag by lia. cbn [nth]. lia.
+      * rewrite app_nth1 by lia. apply Hpre. lia.
+Qed.
+
+Lemma argmin_z_spec (vals : list Z) : vals <> [] ->
+  (argmin_z vals < length vals)%nat /\ forall j, (j < length vals)%nat -> (nth (argmin_z vals) vals 0 <= nth j vals 0)%Z.
+Proof.
+  destruct vals as [|v vals]; [congruence|]. intros _. unfold argmin_z.
+  apply (argmin_z_from_spec vals [v] 0%nat); cbn; [lia|]. intros j Hj. assert (j = 0)%nat by lia. subst. lia.
+Qed.
+
+Theorem find_extreme_points_spec fits best prev i :
+  let rows := fits ++ match prev with Some e => e | None => [] end in
+  rows <> [] -> (i < length best)%nat ->
+  let e := nth i (find_extreme_points fits best prev) [] in
+  In e rows /\ forall row, In row rows -> (asf_val best i e <= asf_val best i row)%Z.
+Proof.
+  intros rows Hne Hi e. unfold e, find_extreme_points. fold rows.
+  rewrite (nth_indep _ [] ((fun i => nth (argmin_z (map (asf_val best i) rows)) rows []) 0%nat)) by (rewrite map_length, seq_length; exact Hi).
+  rewrite (map_nth (fun i => nth (argmin_z (map (asf_val best i) rows)) rows [])), seq_nth by exact Hi. cbn [plus].
+  assert (Hne' : map (asf_val best i) rows <> []) by (destruct rows; [congruence|discriminate]).
+  destruct (argmin_z_spec _ Hne') as [H1 H2]. rewrite map_length in H1, H2.
+  split; [apply nth_In; exact H1|].
+  intros row Hrow. apply (In_nth _ _ []) in Hrow. destruct Hrow as [j [Hj <-]].
+  specialize (H2 j Hj).
+  rewrite !(nth_indep _ 0%Z (asf_val best i [])) in H2 by (rewrite map_length; assumption).
+  rewrite !(map_nth (asf_val best i)) in H2. exact H2.
+Qed.
+
+(* the association always lands on an existing reference point *)
+Lemma associate_lt (eps : Q) fits refs best icpt : refs <> [] ->
+  Forall (fun c => (c < length refs)%nat) (associate q_ops eps fits refs best icpt) /\
+  length (associate q_ops eps fits refs best icpt) = length fits.
+Proof.
+  intro H. unfold associate. split; [|apply map_length].
+  apply Forall_forall. intros c Hc. apply in_map_iff in Hc. destruct Hc as [f [<- _]].
+  apply (associate_one_argmin refs _ H).
+Qed.
+
+(* selNSGA3 with the model's own association *)
+Theorem nsga3_spec (eps : Q) fits fronts k refs best icpt dist draws :
+  refs <> [] -> fronts <> [] -> NoDup (concat fronts) -> length fits = length (concat fronts) ->
+  (length (concat (removelast fronts)) < k <= length (concat fronts))%nat ->
+  let o := snd (nsga3 q_ops eps fits fronts k refs best icpt dist draws) in
+  o_ok o = true /\ length (o_chosen o) = k /\ NoDup (o_chosen o) /\
+  incl (o_chosen o) (concat fronts) /\ incl (concat (removelast fronts)) (o_chosen o).
+Proof.
+  intros Hr Hf ND L Hk. unfold nsga3. cbn [snd].
+  destruct (associate_lt eps fits refs best icpt Hr) as [A B].
+  apply nsga3_core_spec; auto. now rewrite B.
+Qed.
